@@ -438,7 +438,7 @@ def job_phasefield(cfg):
     facade.install()
     reset = cfg["resetAll"]
     key = f"phasefield (Bourdin, solver History) Set_Iter(i, resetAll={reset})"
-    res.functions |= {"Simulations.PhaseField.Save_Iter", "Simulations.PhaseField.Set_Iter", "Simulations.PhaseField.__Calc_psiPlus_e_pg", "_Simu.Get_results"}
+    res.functions |= {"Simulations.PhaseField.Result", "Simulations.PhaseField._Calc_Psi_Elas", "Simulations.PhaseField.Get_K_C_M_F", "Simulations.PhaseField.Save_Iter", "Simulations.PhaseField.Set_Iter", "Simulations.PhaseField.__Calc_psiPlus_e_pg", "_Simu.Get_results"}
     X = np.array([[0, 0, 0], [1, 0, 0], [0.25, 1, 0]], dtype=float)
     mesh = simlib.mesh_from_arrays([("TRI3", [[0, 1, 2]]), ("SEG2", [[0, 1], [1, 2], [2, 0]])], X)
     mat = Models.Elastic.Isotropic(2, E=210.0, v=0.25, planeStress=False)
@@ -462,11 +462,12 @@ def job_phasefield(cfg):
             s.Save_Iter()
             hist = s._PhaseField__old_psiP_e_pg
             hist = hist[g.elemType] if isinstance(hist, dict) else hist
-            snaps.append({"u": farr(s.displacement), "d": farr(s.damage), "H": farr(hist)})
+            # the elastic energy of the iteration (1/2 u^T K_u(d) u with the assembled, damage-degraded stiffness), as reported when it was saved
+            snaps.append({"u": farr(s.displacement), "d": farr(s.damage), "H": farr(hist), "W": farr(np.array([s.Result("Wdef")], dtype=object))})
         s.Set_Iter(restore, resetAll=reset)
         hist = s._PhaseField__old_psiP_e_pg
         hist = hist[g.elemType] if isinstance(hist, dict) else hist
-        return snaps, {"u": farr(s.displacement), "d": farr(s.damage), "H": farr(hist)}
+        return snaps, {"u": farr(s.displacement), "d": farr(s.damage), "H": farr(hist), "W": farr(np.array([s.Result("Wdef")], dtype=object))}
 
     out = {}
 
@@ -497,7 +498,7 @@ def job_phasefield(cfg):
         pcs = list(r.pcs) + list(c.side) + list(c.domain_conds())
         for i in (0, 1):
             snaps, live = r.result[i]
-            for f, name in (("u", "displacement"), ("d", "damage"), ("H", "history of the driving energy")):
+            for f, name in (("u", "displacement"), ("d", "damage"), ("H", "history of the driving energy"), ("W", "elastic energy Result('Wdef')")):
                 worst = None
                 for a, b in zip(live[f], snaps[i][f]):
                     o = prove_abs_le(as_sym(a) - as_sym(b), 0, pcs, f"{key} {name}")
